@@ -9,8 +9,8 @@ HARNESSES = [
     assumptions=['yytext matches the scanner rule ";"[ \\t]*"--"[^\\n]*'], out_of_claim='remarks longer than 300 bytes (same code path)', **LEX),
   H('lex_save_comment', 'c', 'harness/C06/h_lexact.c', defs={'KERNEL': 2, 'MAXLEN': 300}, unwind=310,
     bounds='SCANsave_comment + SCANprocess_semicolon(";",0): remark length 0..300 symbolic, content concretised', **LEX),
-  H('lex_string', 'c', 'harness/C06/h_lexact.c', defs={'quick': {'KERNEL': 3, 'NB': 6}, 'thorough': {'KERNEL': 3, 'NB': 10}}, unwind={'quick': 10, 'thorough': 14},
-    bounds='SCANprocess_string: opening quote + every byte string of <= 6 (10) bytes incl. embedded quotes, NUL-terminated', **LEX),
+  H('lex_string', 'c', 'harness/C06/h_lexact.c', defs={'quick': {'KERNEL': 3, 'NB': 6}, 'thorough': {'KERNEL': 3, 'NB': 8}}, unwind={'quick': 10, 'thorough': 12}, mem_gb=36,
+    bounds='SCANprocess_string: opening quote + every byte string of <= 6 (8) bytes incl. embedded quotes, NUL-terminated', **LEX),
   H('lex_encoded_string', 'c', 'harness/C06/h_lexact.c', defs={'quick': {'KERNEL': 4, 'NB': 6}, 'thorough': {'KERNEL': 4, 'NB': 10}}, unwind={'quick': 10, 'thorough': 14},
     bounds='SCANprocess_encoded_string: opening double quote + every byte string of <= 6 (10) bytes; reporter stubbed to record its arguments (also C20 call-site check)', **LEX),
 ]
